@@ -61,6 +61,9 @@ def run(ctx):
     c = rep.get("counters") or {}
     ctx.note("replay: %d behaviours conclusive (%d calls compared), %d inconclusive (missed their time windows)" % (
         c.get("conclusive", 0), c.get("calls_compared", 0), c.get("inconclusive", 0)))
+    if c.get("calls_asking_other_applications", 0):
+        ctx.note("in %d calls the policy asked other applications than the specification does (verdicts and caches agree)" %
+                 c.get("calls_asking_other_applications", 0))
     if not ctx.violations and c.get("conclusive", 0) < len(beh) // 2:
         ctx.broken("only %d of %d behaviours could be replayed inside their time windows (machine too busy)" % (
             c.get("conclusive", 0), len(beh)))
